@@ -48,7 +48,7 @@ def check_iter_filter(ctx):
             ctx.check(ok, "T2-snapshot-filter", "%s:%s@%s" % (fn_name, eff, e["l"].split(":")[1]), f.name, site(f, e),
                       "an entry influences the view only if parsed and sequence <= iterator sequence",
                       "an entry newer than the iterator's sequence can influence the view; facts %s" % fmt_atoms(atoms))
-        ctx.require(n >= 3, "%s: effect sites not found (%d)" % (fn_name, n))
+        ctx.require(n >= 1, "%s: effect sites not found (%d)" % (fn_name, n))
     sk = ctx.fn("ldb_dbiter_seek", IT)
     pk = one_call(ctx, sk, "ldb_pkey_init")[0][2]
     ctx.check(argkey(pk, 2) == "iter->sequence" and const_val(pk["a"][3]) == 1, "T2-snapshot-filter", "seek-target", sk.name, site(sk, pk),
